@@ -67,6 +67,10 @@ pub struct DRun {
     pub tail_calls: usize,
     pub tail_ended: bool,
     pub total_out: Vec<u8>,
+    /// offsets into total_out at which a successful deflateReset / deflateResetKeep started a new stream
+    pub reset_at: Vec<usize>,
+    /// the current stream reached Z_STREAM_END (in an op or in the tail)
+    pub finished: bool,
 }
 
 pub struct OpEnv {
@@ -99,7 +103,7 @@ pub fn run_dops_ex<Zx: Z>(level: i32, method: i32, wbits_arg: i32, mem_level: i3
     let mut rec = rec;
     unsafe {
         let mut s = if guarded { Strm::guarded(0xC3) } else { Strm::plain() };
-        let mut run = DRun { obs: vec![], tail_calls: 0, tail_ended: false, total_out: vec![] };
+        let mut run = DRun { obs: vec![], tail_calls: 0, tail_ended: false, total_out: vec![], reset_at: vec![], finished: false };
         let r = Zx::deflateInit2_(s.p(), level, method, wbits_arg, mem_level, strategy, Zx::zlibVersion(), STREAM_SIZE);
         run.obs.push(Obs { ret: r as i64, din: 0, dout: 0, out: vec![], aux: [0, 0] });
         if r != Z_OK {
@@ -280,6 +284,7 @@ pub fn run_dops_ex<Zx: Z>(level: i32, method: i32, wbits_arg: i32, mem_level: i3
                 DOp::Reset => {
                     o.ret = Zx::deflateReset(s.p()) as i64;
                     if o.ret == Z_OK as i64 {
+                        run.reset_at.push(run.total_out.len());
                         finished = false;
                         finish_started = false;
                         deflate_called = false;
@@ -297,6 +302,7 @@ pub fn run_dops_ex<Zx: Z>(level: i32, method: i32, wbits_arg: i32, mem_level: i3
                     }
                     o.ret = Zx::deflateResetKeep(s.p()) as i64;
                     if o.ret == Z_OK as i64 {
+                        run.reset_at.push(run.total_out.len());
                         finished = false;
                         finish_started = false;
                         deflate_called = false;
@@ -358,6 +364,7 @@ pub fn run_dops_ex<Zx: Z>(level: i32, method: i32, wbits_arg: i32, mem_level: i3
             probe_inv!(format!("op {oi} {}", op.tag()));
             run.obs.push(o);
         }
+        run.finished = finished;
         // default tail: Finish with fresh `tail_room`-byte rooms until stream end
         if live {
             if !finished {
@@ -382,6 +389,7 @@ pub fn run_dops_ex<Zx: Z>(level: i32, method: i32, wbits_arg: i32, mem_level: i3
                     probe_inv!("a Finish tail call");
                     if ret == Z_STREAM_END {
                         run.tail_ended = true;
+                        run.finished = true;
                         break;
                     }
                     if !matches!(ret, Z_OK | Z_BUF_ERROR) {
